@@ -635,6 +635,12 @@ func (x *Exec) run(fn *ssa.Function, args []Value, st *State, pcIn *Term) (Value
 					ai := x.adaptIdx(a, idx)
 					x.noteSelect(a, ai)
 					vals[i] = x.sel(a, ai)
+				case *ArrV:
+					idx := x.toIdx64(get(i.Index).(*Term), i.Index.Type())
+					if !isC(idx) || idx.Val >= uint64(len(a.E)) {
+						unsupported("symbolic index into an array of non-scalar elements")
+					}
+					vals[i] = a.E[idx.Val]
 				case *StrV:
 					idx := x.toIdx64(get(i.Index).(*Term), i.Index.Type())
 					x.oblige("index", pc, b.Cmp("bvult", idx, a.Len))
@@ -866,6 +872,10 @@ func (x *Exec) indexAddr(i *ssa.IndexAddr, get func(ssa.Value) Value, st *State,
 		}
 		// keep the narrowest faithful index
 		raw := get(i.Index).(*Term)
+		if sortOf(at.Elem()) == nil {
+			// array of non-scalar elements: Go-side vector, constant index
+			return &PtrV{Obj: p.Obj, Path: append(append([]PE{}, p.Path...), PE{Index: idx}), Nil: p.Nil}
+		}
 		iw := bitsFor(at.Len())
 		var ix *Term
 		if raw.S.W > iw {
